@@ -245,9 +245,13 @@ Definition is_boollit (e : expr) : bool := match e with ETrue | EFalse => true |
 Definition is_deriv (e : expr) : bool := match e with EDeriv _ _ _ => true | _ => false end.
 Definition is_ineq (r : Z) : bool := (2 <=? r) && (r <=? 5).
 
-(* a relation class applied to two expressions: SymPy refuses true / false in an inequality *)
+(* a relation class applied to two expressions: SymPy refuses a Boolean (true / false, a relation, And / Or / Xor / Not)
+   as an operand of an inequality *)
+Definition is_boolish (e : expr) : bool :=
+  match e with ETrue | EFalse | ERel _ _ _ | EBool _ _ => true | _ => false end.
+
 Definition mk_rel (r : Z) (a b : expr) : tres expr :=
-  if is_ineq r && (is_boollit a || is_boollit b) then TErr EType else TOk (ERel r a b).
+  if is_ineq r && (is_boolish a || is_boolish b) then TErr EType else TOk (ERel r a b).
 
 Fixpoint chain (r : Z) (a : expr) (l : list expr) : tres (list expr) :=
   match l with
